@@ -189,13 +189,19 @@ class DagFunc:
         self.arith = []  # (guard, Node) of every arithmetic / cast node, for premise generation
 
 
-def build(func, mod=None, lenient=False):
+def build(func, mod=None, lenient=False, bind=None, unfold=0):
     """IR function -> DagFunc.  Raises AnalysisBroken for anything outside the accepted fragment.
     lenient=True: instructions outside the fragment become opaque nodes; only the list of calls
-    (`effects`) may then be used, never values."""
+    (`effects`) may then be used, never values.
+    bind: {parameter index: Node} - actual arguments standing in for parameters (used when a call is
+    unfolded).  unfold=N: calls to functions DEFINED in `mod` (the inliner leaves recursive helpers
+    alone) are replaced by the callee's DAG on the actual arguments, to nesting depth N; with
+    constant arguments the callee's branches fold, so a recursion on a constant terminates."""
     d = DagFunc(func)
     for i, (ty, name, attrs) in enumerate(func.params):
-        if name is None or ty not in INT_BITS and ty not in ("float", "double", "x86_fp80"):
+        if bind is not None and i in bind:
+            n = bind[i]
+        elif name is None or ty not in INT_BITS and ty not in ("float", "double", "x86_fp80"):
             # pointer parameters (e.g. std::ostream&) are opaque handles
             n = Node("param", ty, (), i)
         else:
@@ -277,7 +283,11 @@ def build(func, mod=None, lenient=False):
                         else:
                             n = Node("xor", "i1", sorted((a, c), key=lambda x: repr(x.key)))
                 else:
-                    if a.is_const() and c.is_const() and ins.ty in INT_BITS and op in ("add", "sub", "mul"):
+                    if a.is_const() and c.is_const() and ins.ty in INT_BITS and op in ("sdiv", "srem") and as_signed(c.cval(), ins.ty) not in (0, -1):
+                        x, y = as_signed(a.cval(), ins.ty), as_signed(c.cval(), ins.ty)
+                        q = abs(x) // abs(y) * (1 if (x >= 0) == (y > 0) else -1)
+                        n = const(ins.ty, wrap_int(q if op == "sdiv" else x - q * y, ins.ty))
+                    elif a.is_const() and c.is_const() and ins.ty in INT_BITS and op in ("add", "sub", "mul"):
                         x, y = as_signed(a.cval(), ins.ty), as_signed(c.cval(), ins.ty)
                         r = {"add": x + y, "sub": x - y, "mul": x * y}[op]
                         lo, hi = -(1 << (INT_BITS[ins.ty] - 1)), (1 << (INT_BITS[ins.ty] - 1)) - 1
@@ -363,6 +373,18 @@ def build(func, mod=None, lenient=False):
                         args.append(val(a))
                     else:
                         args.append(Node("opaque", "ptr", (), str(a)))
+                if unfold > 0 and mod is not None and cal in mod.funcs and getattr(mod.funcs[cal], "blocks", None):
+                    if g.is_const() and not g.cval():
+                        # a call on a path that is not taken (its guard folded to false)
+                        if ins.res is not None:
+                            d.env[ins.res] = Node("undef", ins.ty)
+                        continue
+                    sub = build(mod.funcs[cal], mod, lenient, bind=dict(enumerate(args)), unfold=unfold - 1)
+                    d.arith += [(mk_and(g, g2), n2) for g2, n2 in sub.arith]
+                    d.effects += [(mk_and(g, g2), n2) for g2, n2 in sub.effects]
+                    if ins.res is not None:
+                        d.env[ins.res] = sub.ret
+                    continue
                 n = Node("call", ins.ty, args, cal, ins.dbg)
                 pure = any(cal.startswith(p) for p in PURE_INTRINSICS) or cal in LIBM_ALL
                 if not pure:
